@@ -108,6 +108,13 @@ type Op struct {
 	Count   int          `json:"cnt,omitempty"`
 	Loc     []string     `json:"eloc,omitempty"`
 	Abandon int          `json:"abandon,omitempty"` // >0: execute once with this write failing and do not retry
+	// rebundle: a bundle built from the current state of the Pick-th listed group: its rules are re-posted
+	// unchanged (0), changed (1: count, 2: role learner) or dropped (3) as Mask says (cyclically), Rules are added,
+	// the group's override is flipped (Flip) and its index moved by Delta; All: the whole configuration is
+	// re-posted with SetAllGroupBundles(override=true), otherwise SetGroupBundle
+	Mask  []int `json:"mask,omitempty"`
+	Flip  bool  `json:"flip,omitempty"`
+	Delta int   `json:"delta,omitempty"`
 }
 
 type Case struct {
@@ -234,7 +241,7 @@ func genBundle(t *rapid.T) BundleSpec {
 
 var opKinds = []string{"setRule", "setRule", "setRule", "setRule", "setRule", "setRule", "deleteRule", "deleteRule", "deleteRule",
 	"setRules", "setRules", "batch", "batch", "batch", "setGroup", "setGroup", "setGroup", "deleteGroup",
-	"setBundle", "setBundle", "setAllBundles", "deleteBundle", "editSet", "restart"}
+	"setBundle", "setBundle", "setAllBundles", "deleteBundle", "editSet", "restart", "rebundle", "rebundle", "rebundle", "rebundle"}
 
 func genOp(t *rapid.T) Op {
 	op := Op{Kind: rapid.SampledFrom(opKinds).Draw(t, "kind"), Pick: -1}
@@ -277,6 +284,16 @@ func genOp(t *rapid.T) Op {
 			op.Bundles = append(op.Bundles, genBundle(t))
 		}
 		op.All = rapid.Bool().Draw(t, "overrideAll")
+	case "rebundle":
+		op.Pick = rapid.IntRange(0, 1000).Draw(t, "pick")
+		op.Mask = rapid.SliceOfN(rapid.SampledFrom([]int{0, 0, 0, 0, 1, 2, 3}), 1, 4).Draw(t, "mask")
+		op.Flip = rapid.IntRange(0, 3).Draw(t, "flip") != 3
+		op.Delta = rapid.SampledFrom([]int{0, 0, 1, 2, -1}).Draw(t, "delta")
+		op.All = rapid.IntRange(0, 2).Draw(t, "wholeConfig") == 2
+		if rapid.IntRange(0, 3).Draw(t, "addRule") == 3 {
+			op.Rules = []RuleSpec{genRule(t, "?")}
+			op.Rules[0].Group = ""
+		}
 	case "deleteBundle":
 		op.Regex = rapid.Bool().Draw(t, "regex")
 		if op.Regex {
@@ -1248,7 +1265,7 @@ func (f *fixture) buildUpdate(m *model, op Op) *update {
 		p.groups[id] = mgroup{}
 		u.desc = fmt.Sprintf("DeleteRuleGroup(%q)", id)
 		u.exec = func(mgr *placement.RuleManager) error { return mgr.DeleteRuleGroup(id) }
-	case "setBundle", "setAllBundles":
+	case "setBundle", "setAllBundles", "rebundle":
 		type rb struct {
 			spec BundleSpec
 			ins  []inRule
@@ -1261,9 +1278,52 @@ func (f *fixture) buildUpdate(m *model, op Op) *update {
 			}
 			bs = append(bs, x)
 		}
-		if op.Kind == "setBundle" {
+		single, all := op.Kind == "setBundle", op.All
+		if op.Kind == "rebundle" {
+			// what a client does that reads the configuration, edits one group and posts it back
+			vis := m.visibleGroups()
+			picked := vis[op.Pick%len(vis)]
+			single = !op.All
+			for _, g := range vis {
+				if g != picked && !op.All {
+					continue
+				}
+				cfg := m.group(g)
+				x := rb{spec: BundleSpec{ID: g, Index: cfg.Index, Override: cfg.Override}}
+				cur := m.sorted(func(r *mrule) bool { return r.Group == g })
+				for i, r := range cur {
+					in := r.inRule
+					in.Cons, in.Loc = append([]Con(nil), in.Cons...), append([]string(nil), in.Loc...)
+					if g == picked {
+						switch op.Mask[i%len(op.Mask)] {
+						case 1:
+							in.Count = in.Count%3 + 1
+							if in.Role == "leader" {
+								in.Count = 1
+							}
+						case 2:
+							in.Role = "learner"
+						case 3:
+							continue
+						}
+					}
+					x.ins = append(x.ins, in)
+				}
+				if g == picked {
+					x.spec.Index += op.Delta
+					if op.Flip {
+						x.spec.Override = !x.spec.Override
+					}
+					for _, s := range op.Rules {
+						x.ins = append(x.ins, resolve(s))
+					}
+				}
+				bs = append(bs, x)
+			}
+		}
+		if single {
 			dropGroup(bs[0].spec.ID)
-		} else if op.All {
+		} else if all {
 			for k := range m.rules {
 				p.rules[k] = nil
 			}
@@ -1295,11 +1355,10 @@ func (f *fixture) buildUpdate(m *model, op Op) *update {
 			}
 			return out
 		}
-		if op.Kind == "setBundle" {
+		if single {
 			u.desc = fmt.Sprintf("SetGroupBundle(%s)", js(mk()[0]))
 			u.exec = func(mgr *placement.RuleManager) error { return mgr.SetGroupBundle(mk()[0]) }
 		} else {
-			all := op.All
 			u.desc = fmt.Sprintf("SetAllGroupBundles(%s, override=%v)", js(mk()), all)
 			u.exec = func(mgr *placement.RuleManager) error { return mgr.SetAllGroupBundles(mk(), all) }
 		}
